@@ -57,6 +57,14 @@ func ruleSErrPreimage(c *Ctx, names ...string) {
 			if cv, ok := idx.(*ssa.Convert); ok {
 				idx = cv.X
 			}
+			// the parameter itself, or its copy in the cell a function literal captures it through
+			if ld, ok := idx.(*ssa.UnOp); ok && ld.Op == token.MUL {
+				if al, ok := ld.X.(*ssa.Alloc); ok {
+					if v, ok := cellValue(al); ok {
+						idx = v
+					}
+				}
+			}
 			return idx == ssa.Value(fn.Params[1])
 		}
 		isNil := func(v ssa.Value) bool {
